@@ -137,6 +137,29 @@ func (g *gatedStore) AddCallback(id string, fn beacon.CallbackFunc) {
 	g.added <- struct{}{}
 }
 
+// pausingStore lets the harness hold a Put of the callback store between the write to the
+// underlying store and the dispatch to the callbacks.
+type pausingStore struct {
+	chain.Store
+	mu     sync.Mutex
+	armed  bool
+	stored chan struct{}
+	resume chan struct{}
+}
+
+func (p *pausingStore) Put(ctx context.Context, b *common.Beacon) error {
+	err := p.Store.Put(ctx, b)
+	p.mu.Lock()
+	armed := p.armed
+	p.armed = false
+	p.mu.Unlock()
+	if armed {
+		p.stored <- struct{}{}
+		<-p.resume
+	}
+	return err
+}
+
 type req struct{ from uint64 }
 
 func (r req) GetFromRound() uint64         { return r.from }
@@ -151,19 +174,20 @@ type streamRun struct {
 	atGate  bool
 	phase   string // scan | wait | live | done
 	// shadow bookkeeping, used only to know how long to wait
-	qlen     int
-	busy     bool
-	cid      int
-	windowed bool // a Put happened between this stream's snapshot / last scan read and its AddCallback
+	qlen      int
+	busy      bool
+	cid       int
+	windowed  bool            // a Put happened between this stream's snapshot / last scan read and its AddCallback
 	winRounds map[uint64]bool // the rounds of those Puts
-	base     uint64
-	started  bool
+	base      uint64
+	started   bool
 }
 
 type world struct {
 	backend string
 	dir     string
 	base    chain.Store
+	pause   *pausingStore
 	cbs     beacon.CallbackStore
 	runs    []*streamRun
 	reg     map[int]int
@@ -243,7 +267,8 @@ func newWorld(backend, root string, genesis int64) (*world, error) {
 		}
 		w.base = st
 	}
-	w.cbs = beacon.NewCallbackStore(quiet(), w.base)
+	w.pause = &pausingStore{Store: w.base, stored: make(chan struct{}, 1), resume: make(chan struct{})}
+	w.cbs = beacon.NewCallbackStore(quiet(), w.pause)
 	if err := w.cbs.Put(ctx, &common.Beacon{Round: 0, Signature: tokSig(genesis)}); err != nil {
 		return nil, err
 	}
@@ -489,6 +514,68 @@ func (w *world) finish() []obs {
 		}
 	}
 	return out
+}
+
+// straddle runs, on the real code only (the model treats a Put as one step), the schedule in which
+// a Put has written to the store but not yet dispatched when SyncChain registers its callback: the
+// catch-up sends that beacon from the store and the callback must then drop it. Returns the rounds
+// passed to Send.
+func straddle(root, backend string) ([]uint64, string, error) {
+	w, err := newWorld(backend, root, 7)
+	if err != nil {
+		return nil, "", err
+	}
+	defer w.close()
+	for i := 0; i < 3; i++ {
+		w.do(event{kind: evPut, d: int64(100 + i)})
+	}
+	w.do(event{kind: evStart, cid: 1, from: 1})
+	for i := 0; i < 3; i++ {
+		w.do(event{kind: evAck, k: 0, ok: true})
+	}
+	r := w.runs[0]
+	if !r.atGate {
+		return nil, "the scan did not reach AddCallback", nil
+	}
+	w.pause.mu.Lock()
+	w.pause.armed = true
+	w.pause.mu.Unlock()
+	w.head++
+	w.toks[w.head] = 104
+	putDone := make(chan error, 1)
+	go func() { putDone <- w.cbs.Put(context.Background(), &common.Beacon{Round: 4, Signature: tokSig(104)}) }()
+	select {
+	case <-w.pause.stored:
+	case <-time.After(Deadline):
+		return nil, "the paused Put did not reach the store", nil
+	}
+	// AddCallback and the catch-up run while the Put is between its store write and its dispatch
+	r.atGate = false
+	r.gs.gate <- struct{}{}
+	select {
+	case <-r.gs.added:
+	case <-time.After(Deadline):
+		return nil, "AddCallback did not return", nil
+	}
+	w.reg[r.cid] = 0
+	r.phase, r.busy, r.qlen = "live", true, 0
+	w.waitStable(r)
+	w.do(event{kind: evAck, k: 0, ok: true}) // Send(4) from the catch-up
+	w.pause.resume <- struct{}{}             // now the dispatch of round 4 reaches the callback
+	select {
+	case <-putDone:
+	case <-time.After(Deadline):
+		return nil, "the resumed Put did not return", nil
+	}
+	w.do(event{kind: evPut, d: 105})
+	w.do(event{kind: evAck, k: 0, ok: true})
+	time.Sleep(5 * time.Millisecond)
+	obs := w.finish()
+	var rounds []uint64
+	for _, s := range obs[0].sent {
+		rounds = append(rounds, s.round)
+	}
+	return rounds, w.problem, nil
 }
 
 type scenario struct {
@@ -863,8 +950,29 @@ func Run(outDir string, seed int64, tier string) error {
 			}
 		}
 	}
+	// the Put that straddles AddCallback (real code and monitor only)
+	for _, b := range backends {
+		rounds, problem, err := straddle(root, b)
+		if err != nil {
+			return err
+		}
+		rep.Evaluations += 12
+		rep.Count("stream/" + b + "/put-straddles-addcallback")
+		in := map[string]interface{}{"scenario": "put-straddles-addcallback", "backend": b, "from": 1, "sent": rounds}
+		if problem != "" {
+			failOnce(rep, "C11-harness-stuck", problem, in)
+		}
+		want := []uint64{1, 2, 3, 4, 5}
+		ok := len(rounds) == len(want)
+		for i := range want {
+			ok = ok && i < len(rounds) && rounds[i] == want[i]
+		}
+		if !ok {
+			failOnce(rep, "C11-stream-not-contiguous", fmt.Sprintf("a Put that had written to the store but not yet dispatched when the callback was registered: sent %v, expected %v", rounds, want), in)
+		}
+	}
 	rep.DistinctNontrivial = len(distinct)
-	rep.Rule = "real SyncChain over the real callback store on memdb, trimmed bolt and untrimmed bolt; Send and AddCallback gated so that the harness places every Put relative to each scan step and registration; witness scripts (Put between scan end and AddCallback, Put during the scan, no Put in the window, same-id reconnect, start at 0 / head / beyond head) and random scripts with 1-3 concurrent streams, reconnects and refused Sends; distinct = distinct (back-end, event); an evaluation = one event"
+	rep.Rule = "real SyncChain over the real callback store on memdb, trimmed bolt and untrimmed bolt; Send and AddCallback gated so that the harness places every Put relative to each scan step and registration; witness scripts (Put between scan end and AddCallback, Put during the scan, no Put in the window, same-id reconnect, start at 0 / head / beyond head; a Put paused between its store write and its dispatch while AddCallback runs - monitor only) and random scripts with 1-3 concurrent streams, reconnects and refused Sends; distinct = distinct (back-end, event); an evaluation = one event"
 	if err := rep.Shard(outDir, "cases_stream", []string{"From DV Require Import Model.Stream Corr.StreamCorr."}, "scase", "mismatches", cases, descr, 60); err != nil {
 		return err
 	}
